@@ -296,7 +296,7 @@ def d3_outside_brain(ctx):
             n += 1
             ctx.check(ok, fi, st, st, "outside-brain channels (label 3) neither feed nor receive the spatial filter",
                       f"`{src(st)[:90]}`: the spatial filter is not applied as x[where(labels != 3)[0], :] = f(x[where(labels != 3)[0], :]) (selector definitions: {kinds})", key=f"{q}:inside")
-            ctx.check(bool(itp) and all(cfg.reachable(cfg.node_for(i), cfg.node_for(c)) for i in itp) and not any(cfg.reachable(cfg.node_for(c), cfg.node_for(i), avoid=[n_ for n_ in cfg.nodes if n_.kind in ("test",) and isinstance(n_.stmt, ast.While)]) for i in itp),
+            ctx.check(bool(itp) and all(cfg.reachable(cfg.node_for(i), cfg.node_for(c)) for i in itp) and not any(cfg.reachable(cfg.node_for(c), cfg.node_for(i), avoid=[n_ for n_ in cfg.nodes if (n_.kind == "test" and isinstance(n_.stmt, ast.While)) or n_.kind == "iter"]) for i in itp),
                       fi, c, c, "bad channels are repaired before the spatial filter",
                       "bad channels are not repaired before the spatial filter (a dead/noisy channel contaminates its neighbours)", key=f"{q}:interp-first")
         # the repair mixes neighbouring channels: it must see re-aligned traces
@@ -305,7 +305,7 @@ def d3_outside_brain(ctx):
             r = repo.resolve_call(fi, c)
             if r in ("ibldsp.fourier.fshift", "ibldsp.fourier.channel_shift") or (isinstance(c.func, ast.Name) and c.func.id == "ifft_object"):
                 shifts.append(c)
-        loop_heads = [n_ for n_ in cfg.nodes if n_.kind == "test" and isinstance(n_.stmt, ast.While)]
+        loop_heads = [n_ for n_ in cfg.nodes if (n_.kind == "test" and isinstance(n_.stmt, ast.While)) or n_.kind == "iter"]
         for i in itp:
             late = [s_ for s_ in shifts if cfg.reachable(cfg.node_for(i), cfg.node_for(s_), avoid=loop_heads)]
             ctx.check(not late, fi, i, i, "bad-channel interpolation runs on re-aligned traces (after the sample_shift correction)",
